@@ -44,6 +44,9 @@ class World:
         self.nextk = 1
         self.nextemit = 1
         self.keys = {}    # tag -> Key object
+        self.inuse = {}   # weak argument id -> number of running handler calls that received it
+        self.utag = {}    # connection k -> user argument given at connect time (shared by duplicate connections)
+        self.info = {}    # connection k -> (s, n, h, w)
         self.shadow = {(s, n): [] for s in (1, 2) for n in (1, 2)}  # harness belief: list of (k, h, w)
         self.depth = 0
         self.handlers = {h: self._mk_handler(h) for h in range(1, nh + 1)}
@@ -58,20 +61,30 @@ class World:
         return handler
 
     # ---- abstract operations ---------------------------------------------------------------
-    def connect(self, s, n, h, w):
+    def connect(self, s, n, h, w, u=None):
         k = self.nextk
+        u = k if u is None else u
         exc = ""
         if w and w not in self.weak:
             return 0
         wa = [self.weak[w]] if w else []
         try:
-            self.keys[k] = self.urwid.connect_signal(self.senders[s], NAMES[n], self.handlers[h], weak_args=wa, user_args=[k])
+            self.keys[k] = self.urwid.connect_signal(self.senders[s], NAMES[n], self.handlers[h], weak_args=wa, user_args=[u])
             self.shadow[(s, n)].append((k, h, w))
+            self.utag[k] = u
+            self.info[k] = (s, n, h, w)
             self.nextk += 1
         except Exception as ex:  # noqa: BLE001
             exc = type(ex).__name__
-        self.ev.append({"t": "connect", "s": s, "n": n, "h": h, "w": w, "k": k, "exc": exc})
+        self.ev.append({"t": "connect", "s": s, "n": n, "h": h, "w": w, "k": k, "u": u, "exc": exc})
         return k
+
+    def connect_dup(self, k0):
+        """Connect once more exactly what connection k0 connected: same sender, name, callback, weak and user arguments."""
+        if k0 not in self.info:
+            return 0
+        s, n, h, w = self.info[k0]
+        return self.connect(s, n, h, w, self.utag[k0])
 
     def disconnect(self, s, n, h, w, k):
         exc = ""
@@ -79,13 +92,16 @@ class World:
         if w and w not in self.weak:
             # cannot name a dead weak argument any more; the handler is gone anyway
             return
+        u = self.utag.get(k, k)
         try:
-            self.urwid.disconnect_signal(self.senders[s], NAMES[n], self.handlers[h], weak_args=wa, user_args=[k])
+            self.urwid.disconnect_signal(self.senders[s], NAMES[n], self.handlers[h], weak_args=wa, user_args=[u])
         except Exception as ex:  # noqa: BLE001
             exc = type(ex).__name__
-        if n in (1, 2) and (k, h, w) in self.shadow[(s, n)]:
-            self.shadow[(s, n)].remove((k, h, w))
-        self.ev.append({"t": "disconnect", "s": s, "n": n, "h": h, "w": w, "k": k, "exc": exc})
+        if n in (1, 2):   # belief only: the first connection made with these arguments goes
+            hit = next((e for e in self.shadow[(s, n)] if e[1] == h and e[2] == w and self.utag.get(e[0]) == u), None)
+            if hit is not None:
+                self.shadow[(s, n)].remove(hit)
+        self.ev.append({"t": "disconnect", "s": s, "n": n, "h": h, "w": w, "k": u, "exc": exc})
 
     def disconnect_by_key(self, s, n, k):
         exc = ""
@@ -101,6 +117,10 @@ class World:
 
     def collect(self, w):
         if w not in self.weak:
+            return
+        if self.inuse.get(w):
+            # a handler that received this object as argument is still running: its frame keeps the object alive,
+            # dropping our reference now would not collect it (and it would die silently when that frame returns)
             return
         # event first: the weakref callbacks fire synchronously when the last reference goes
         self.ev.append({"t": "collect", "w": w})
@@ -144,6 +164,16 @@ class World:
         self.ev.append({"t": "call", "k": k, "h": h, "args": aa, "emit": eid, "ret": ret})
         if s == 0:
             return ret
+        held = [a.w for a in args if isinstance(a, _WeakArg)]
+        for w in held:
+            self.inuse[w] = self.inuse.get(w, 0) + 1
+        try:
+            return self._behave(b, s, n, k, ret)
+        finally:
+            for w in held:
+                self.inuse[w] -= 1
+
+    def _behave(self, b, s, n, k, ret):
         live = self.shadow[(s, n)]
         pos = next((i for i, e in enumerate(live) if e[0] == k), None)
         if b == "discSelf":
@@ -222,6 +252,30 @@ def script_from_behaviour(b):
     return script, calls
 
 
+def directed_scripts():
+    """Every ordered triple of handler behaviours on one signal, with a handler on the sender's other signal (so that a
+    recursive emit finds one), the weak argument on each position in turn, emitted twice; and duplicate connections
+    (same callback, same arguments) with one or two disconnects by arguments / by key before and during an emit."""
+    out = []
+    for b1 in BEHS:
+        for b2 in BEHS:
+            for b3 in BEHS:
+                for wpos in (0, 1, 2, 3):
+                    ws = [1 if wpos == i else 0 for i in (1, 2, 3)]
+                    script = [("connect", 1, 1, 1, ws[0]), ("connect", 1, 1, 2, ws[1]), ("connect", 1, 1, 3, ws[2]), ("connect", 1, 2, 4, 0),
+                              ("emit", 1, 1), ("emit", 1, 1)]
+                    out.append(([b1, b2, b3, "plain"], 4, script))
+    for b in BEHS:
+        for ndup in (1, 2):
+            for ndisc in (0, 1, 2, 3):
+                for mode in ("args", "key"):
+                    script = [("connect", 1, 1, 1, 0), ("connect", 1, 1, 2, 0)] + [("connect_dup", 2)] * ndup + [("connect", 1, 1, 3, 0), ("emit", 1, 1)]
+                    script += [("disconnect", 1, 1, 2, 0, 2) if mode == "args" else ("disconnect_by_key", 1, 1, 2)] * ndisc
+                    script += [("emit", 1, 1), ("connect_dup", 1), ("emit", 1, 1)]
+                    out.append(([b, "plain", "true", "plain"], 4, script))
+    return out
+
+
 def random_script(rng, nh, nweak, length):
     script = []
     known = []  # (s, n, h, w, k) as they will be assigned
@@ -238,6 +292,11 @@ def random_script(rng, nh, nweak, length):
             k += 1
         elif r < 0.45:
             script.append(("connect", s, 3, rng.randint(1, nh), 0))
+        elif r < 0.5 and known:      # the same callback with the same arguments once more
+            e = rng.choice(known)
+            script.append(("connect_dup", e[4]))
+            known.append((e[0], e[1], e[2], e[3], k))
+            k += 1
         elif r < 0.55 and known:
             e = rng.choice(known)
             if rng.random() < 0.3:  # something that is not connected: wrong name / handler / tag
@@ -341,6 +400,14 @@ def run(chk):
         tr = run_script(beh, nh, random_script(rng, nh, nweak, rng.randint(4, 14)), nweak=nweak, maxconn=6)
         tr["driver"] = "random"
         traces.append(tr)
+    # ---- code -> spec: directed families (behaviour triples, duplicate connections) ----------------
+    nd = 0
+    for beh, nh, script in directed_scripts():
+        tr = run_script(beh, nh, script, nweak=1, maxconn=6)
+        tr["driver"] = "directed"
+        traces.append(tr)
+        nd += 1
+    chk.cov["directed_scripts"] = nd
     res = tlc.validate("SignalsTrace", traces, batch_events=25000, timeout=1500)
     chk.add_tv("TV_SignalsTrace", res)
     _handle(chk, traces, res, "c14")
